@@ -85,6 +85,15 @@ def gen_base(rng, tier, index):
             call["result_size"] = rng.choice([70_000, 200_000])
             call["n"] = min(n, 8)
         calls.append(call)
+    # combinations that must not depend on the luck of the draw (every 16 bases): results larger than a pipe buffer through
+    # both APIs, exception objects and twin items through mul_p_map
+    forced = {1: ("fmap", {"result_size": 200_000}), 5: ("mulpmap", {"result_size": 200_000}), 11: ("mulpmap", {"exc_results": True}),
+              8: ("mulpmap", {"twins": True})}.get(index % 16)
+    if forced and forced[0] == kind:
+        first = {"ordered": True, "n": 8 if "result_size" in forced[1] else 12, "chunk": 1, "form": "list", "salt": 7}
+        first.update(forced[1])
+        calls = [first] + calls[:2]
+        workers = max(2, min(workers, 3))
     return {"kind": kind, "pool": kind, "workers": workers, "calls": calls,
             # all generators of a FunctorMap created first and consumed one after the other; the calls made from a thread
             # other than the main one
